@@ -1,7 +1,10 @@
-/- The deep copy `copyInto` / `copyIntoF` / `copyMembers` of AJ/Model/DL.lean (model of `JsonVariant::set(JsonVariantConst)`)
-   over the layout invariant of AJ/Lemmas/DocInv.lean: a local ("separation style") specification `Post` of what the copy
-   builds at its target, proved by induction on the layout of the SOURCE value, and its assembly into the document
-   invariant `WFG`. Used by AJ/Props/C04Copy.lean and AJ/Props/C05Copy.lean. -/
+/- The deep copy `copyInto` / `copyIntoF` / `copyElems` / `copyMembers` of AJ/Model/DL.lean (model of
+   `JsonVariant::set(JsonVariantConst)`, `JsonArray::set`, `JsonObject::set`) over the layout invariant of
+   AJ/Lemmas/DocInv.lean: a local ("separation style") specification `Post` of what the copy builds at its target, proved
+   by induction on the layout of the SOURCE value, and its assembly into the document invariant `WFG`.
+   The loops stop at the first round that reports failure (`arr_step`, `obj_step`); an array element whose copy failed is
+   released again (`free_built`, on top of `DocClear.step_slot`); in a document that is already flagged every loop stops
+   after its first round (`FlaggedCopy`). Used by AJ/Props/C04Copy.lean and AJ/Props/C05Copy.lean. -/
 import AJ.Lemmas.DocPair
 namespace DL
 open JD (Byte Val)
@@ -48,43 +51,54 @@ def NoDupKeysM : List (List Byte × Val) → Prop
   | (_, v) :: ms => NoDupKeys v ∧ NoDupKeysM ms
 end
 
+/-- values that own no chain: everything but arrays and objects -/
+def isScalarVal : Val → Prop
+  | .arr _ => False
+  | .obj _ => False
+  | _ => True
+
 mutual
-/-- `PartialCopy x' x`: `x'` is what a copy of `x` interrupted by allocation failures can leave behind: a value is
-    copied completely, or left null; an array holds partial copies of a sub-sequence of the elements, in order (an element
-    whose slot could not be allocated is skipped, the following ones are still attempted); an object likewise holds,
-    for a sub-sequence of the members, the SAME key with a partial copy of the value. There is no other shape: in
-    particular no member without key or value. -/
+/-- `PartialCopy x' x`: `x'` is what a copy of `x` interrupted by an allocation failure can leave behind. The copy STOPS at the
+    first failure: a scalar or string is copied completely, or left null; an array holds complete copies of a PREFIX of
+    the elements (the element at which the copy failed is released again, so there is no partial last element); an
+    object holds complete copies of a prefix of the members, possibly followed by ONE more member - with its key -
+    whose value is a partial copy (possibly null). There is no other shape: in particular no member without key or value. -/
 inductive PartialCopy : Val → Val → Prop
   | done (v : Val) : PartialCopy v v
-  | null (v : Val) : PartialCopy .null v
-  | arr {xs' xs : List Val} : PartialL xs' xs → PartialCopy (.arr xs') (.arr xs)
+  | null {v : Val} : isScalarVal v → PartialCopy .null v
+  | arr {xs' xs : List Val} : xs' <+: xs → PartialCopy (.arr xs') (.arr xs)
   | obj {ms' ms : List (List Byte × Val)} : PartialM ms' ms → PartialCopy (.obj ms') (.obj ms)
-inductive PartialL : List Val → List Val → Prop
-  | nil : PartialL [] []
-  | skip {xs' xs : List Val} (x : Val) : PartialL xs' xs → PartialL xs' (x :: xs)
-  | cons {x' x : Val} {xs' xs : List Val} : PartialCopy x' x → PartialL xs' xs → PartialL (x' :: xs') (x :: xs)
 inductive PartialM : List (List Byte × Val) → List (List Byte × Val) → Prop
-  | nil : PartialM [] []
-  | skip {ms' ms : List (List Byte × Val)} (m : List Byte × Val) : PartialM ms' ms → PartialM ms' (m :: ms)
-  | cons {k : List Byte} {v' v : Val} {ms' ms : List (List Byte × Val)} :
-      PartialCopy v' v → PartialM ms' ms → PartialM ((k, v') :: ms') ((k, v) :: ms)
+  | pre {ms' ms : List (List Byte × Val)} : ms' <+: ms → PartialM ms' ms
+  | last {p : List (List Byte × Val)} {k : List Byte} {v' v : Val} {rest : List (List Byte × Val)} :
+      PartialCopy v' v → PartialM (p ++ [(k, v')]) (p ++ (k, v) :: rest)
 end
 
-theorem PartialL.refl : ∀ xs : List Val, PartialL xs xs
-  | [] => .nil
-  | x :: xs => .cons (.done x) (PartialL.refl xs)
-theorem PartialM.refl : ∀ ms : List (List Byte × Val), PartialM ms ms
-  | [] => .nil
-  | (_, v) :: ms => .cons (.done v) (PartialM.refl ms)
+/-- `FlaggedCopy x' x`: what a copy of `x` leaves in a document that is ALREADY flagged `overflowed`. Every `set` of a value
+    reports `!overflowed()`, and the flag is sticky, so every loop stops after its first round: a scalar or string is
+    still copied (or left null if its own allocation fails); an array is left EMPTY (its first element is copied into a
+    new slot, reported as failed, and released); an object keeps at most its FIRST member, whose value is again a
+    flagged copy. -/
+inductive FlaggedCopy : Val → Val → Prop
+  | scalar {v : Val} : isScalarVal v → FlaggedCopy v v
+  | null {v : Val} : isScalarVal v → FlaggedCopy .null v
+  | arr (xs : List Val) : FlaggedCopy (.arr []) (.arr xs)
+  | objNone (ms : List (List Byte × Val)) : FlaggedCopy (.obj []) (.obj ms)
+  | objFirst {k : List Byte} {x v : Val} {rest : List (List Byte × Val)} :
+      FlaggedCopy x v → FlaggedCopy (.obj [(k, x)]) (.obj ((k, v) :: rest))
 
-theorem PartialL.length_le : ∀ {xs' xs : List Val}, PartialL xs' xs → xs'.length ≤ xs.length
-  | _, _, .nil => Nat.le_refl _
-  | _, _, .skip _ h => Nat.le_succ_of_le (PartialL.length_le h)
-  | _, _, .cons _ h => Nat.succ_le_succ (PartialL.length_le h)
-theorem PartialM.length_le : ∀ {ms' ms : List (List Byte × Val)}, PartialM ms' ms → ms'.length ≤ ms.length
-  | _, _, .nil => Nat.le_refl _
-  | _, _, .skip _ h => Nat.le_succ_of_le (PartialM.length_le h)
-  | _, _, .cons _ h => Nat.succ_le_succ (PartialM.length_le h)
+theorem PartialM.cons_head (m : List Byte × Val) :
+    ∀ {ms' ms : List (List Byte × Val)}, PartialM ms' ms → PartialM (m :: ms') (m :: ms)
+  | _, _, .pre hp => .pre (List.cons_prefix_cons.2 ⟨rfl, hp⟩)
+  | _, _, .last (p := p) hq => PartialM.last (p := m :: p) hq
+
+/-- a flagged copy is in particular a partial copy -/
+theorem FlaggedCopy.partial : ∀ {x' x : Val}, FlaggedCopy x' x → PartialCopy x' x
+  | _, _, .scalar _ => .done _
+  | _, _, .null h => .null h
+  | _, _, .arr xs => .arr (List.nil_prefix)
+  | _, _, .objNone ms => .obj (.pre List.nil_prefix)
+  | _, _, .objFirst h => .obj (PartialM.last (p := []) (FlaggedCopy.partial h))
 
 /-! ## Appending an element together with the layout below it -/
 
@@ -208,24 +222,30 @@ structure Fr (d d' : Doc) (ex : List Loc) : Prop where
   cells : ∀ x, PL.live d.g d.pl x → Loc.slot x ∉ ex → d'.cell x = d.cell x
   pool : PL.Inv d'.g d'.pl
   live : ∀ x, PL.live d.g d.pl x → PL.live d'.g d'.pl x
-  bytes : ∀ m, (∃ n ∈ d.strings, n.id = m) → d'.strBytes m = d.strBytes m
-  present : ∀ m, (∃ n ∈ d.strings, n.id = m) → ∃ n ∈ d'.strings, n.id = m
-  strok : ∀ rs, StrOK d rs → StrOK d' rs
+  /-- a string table that is consistent for the references `rs` stays so, and the referenced nodes keep their bytes -/
+  strs : ∀ rs, StrOK d rs → StrOK d' rs ∧ ∀ m ∈ rs, d'.strBytes m = d.strBytes m
   ov : d.overflowed = true → d'.overflowed = true
 
 theorem Fr.null {d d' : Doc} {ex : List Loc} (h : Fr d d' ex) : d'.null = d.null := by simp only [Doc.null, h.g]
 
+theorem Fr.strok {d d' : Doc} {ex : List Loc} (h : Fr d d' ex) (rs : List Nat) (hs : StrOK d rs) : StrOK d' rs :=
+  (h.strs rs hs).1
+
+/-- bytes of a node that some consistent reference list mentions -/
+theorem Fr.bytes {d d' : Doc} {ex : List Loc} (h : Fr d d' ex) {rs : List Nat} (hs : StrOK d rs) {m : Nat}
+    (hm : m ∈ rs) : d'.strBytes m = d.strBytes m :=
+  (h.strs rs hs).2 m hm
+
 theorem Fr.refl {d : Doc} (hp : PL.Inv d.g d.pl) (ex : List Loc) : Fr d d ex :=
-  ⟨rfl, fun _ => rfl, fun _ _ _ => rfl, hp, fun _ h => h, fun _ _ => rfl, fun _ h => h, fun _ h => h, fun h => h⟩
+  ⟨rfl, fun _ => rfl, fun _ _ _ => rfl, hp, fun _ h => h, fun _ h => ⟨h, fun _ _ => rfl⟩, fun h => h⟩
 
 theorem Fr.mono {d d' : Doc} {ex ex' : List Loc} (h : Fr d d' ex) (hs : ∀ l ∈ ex, l ∈ ex') : Fr d d' ex' :=
   ⟨h.g, fun hr => h.root (fun m => hr (hs _ m)), fun x hx hn => h.cells x hx (fun m => hn (hs _ m)), h.pool, h.live,
-    h.bytes, h.present, h.strok, h.ov⟩
+    h.strs, h.ov⟩
 
 theorem Fr.trans {d d1 d2 : Doc} {e1 e2 : List Loc} (h1 : Fr d d1 e1) (h2 : Fr d1 d2 e2)
     (he : ∀ l ∈ e2, l ∈ e1 ∨ ∃ i, l = .slot i ∧ ¬ PL.live d.g d.pl i) : Fr d d2 e1 := by
-  refine ⟨by rw [h2.g, h1.g], ?_, ?_, h2.pool, fun x hx => h2.live x (h1.live x hx), ?_,
-    fun m hm => h2.present m (h1.present m hm), fun rs hs => h2.strok rs (h1.strok rs hs), fun ho => h2.ov (h1.ov ho)⟩
+  refine ⟨by rw [h2.g, h1.g], ?_, ?_, h2.pool, fun x hx => h2.live x (h1.live x hx), ?_, fun ho => h2.ov (h1.ov ho)⟩
   · intro hr
     rw [h2.root ?_, h1.root hr]
     intro m
@@ -238,13 +258,19 @@ theorem Fr.trans {d d1 d2 : Doc} {e1 e2 : List Loc} (h1 : Fr d d1 e1) (h2 : Fr d
     rcases he _ m with a | ⟨i, e, hi⟩
     · exact hn a
     · cases e; exact hi hx
-  · intro m hm
-    rw [h2.bytes m (h1.present m hm), h1.bytes m hm]
+  · intro rs hs
+    obtain ⟨a1, b1⟩ := h1.strs rs hs
+    obtain ⟨a2, b2⟩ := h2.strs rs a1
+    exact ⟨a2, fun m hm => by rw [b2 m hm, b1 m hm]⟩
+
+theorem strBytes_of_present {d d' : Doc} (hb : ∀ m, (∃ n ∈ d.strings, n.id = m) → d'.strBytes m = d.strBytes m)
+    {rs : List Nat} (hs : StrOK d rs) : ∀ m ∈ rs, d'.strBytes m = d.strBytes m :=
+  fun m hm => hb m (hs.present m hm)
 
 theorem Fr.of_grow {d d' : Doc} (h : Grow d d') (ho : d.overflowed = true → d'.overflowed = true) (ex : List Loc) :
     Fr d d' ex :=
-  ⟨h.g, fun _ => h.root, fun x hx _ => h.cells x hx, h.pool, h.live, fun m _ => strBytes_of_strings h.strings m,
-    fun m hm => by rw [h.strings]; exact hm, fun rs hs => StrOK_congr h.strings h.nextNode hs, ho⟩
+  ⟨h.g, fun _ => h.root, fun x hx _ => h.cells x hx, h.pool, h.live,
+    fun rs hs => ⟨StrOK_congr h.strings h.nextNode hs, fun m _ => strBytes_of_strings h.strings m⟩, ho⟩
 
 /-- what has been built at `l` since `d0`: the value `v` laid out as `s` over slots that were not live in `d0`, with its own
     extension slots and string references accounted for -/
@@ -306,9 +332,9 @@ theorem post_set {d d1 : Doc} {l : Loc} {v' : VData} (P : Pre d l) (hf : Fr d d1
     rw [P.cell he.symm, hp] at hc; cases hc
   have hfr : Fr d (d1.set l v') [l] := by
     refine ⟨by rw [set_g, hf.g], ?_, ?_, by rw [set_pl, set_g]; exact hf.pool,
-      fun x hx => by rw [set_pl, set_g]; exact hf.live x hx, fun m hm => by rw [strBytes_set]; exact hf.bytes m hm,
-      fun m hm => by rw [set_strings]; exact hf.present m hm,
-      fun rs hs => StrOK_congr (set_strings _ _ _) (set_nextNode _ _ _) (hf.strok rs hs),
+      fun x hx => by rw [set_pl, set_g]; exact hf.live x hx,
+      fun rs hs => ⟨StrOK_congr (set_strings _ _ _) (set_nextNode _ _ _) (hf.strok rs hs),
+        fun m hm => by rw [strBytes_set]; exact hf.bytes hs hm⟩,
       fun ho => by rw [set_overflowed]; exact hf.ov ho⟩
     · intro hr
       cases l with
@@ -377,8 +403,9 @@ theorem saveString_fr {d d1 : Doc} {s : List Byte} {n : Nat} (hp : PL.Inv d.g d.
   obtain ⟨hg, hroot, hcells, hb, hkeep, h1, h2, h3, h4⟩ := saveString_spec hs0.ids_nodup hs0.ids_lt h
   have hc : ∀ j, d1.cell j = d.cell j := fun j => by simp only [Doc.cell, hcells]
   refine ⟨⟨hg, fun _ => hroot, fun x _ _ => hc x, by rw [hg]; exact hp.congr h1 h3 h4 h2,
-    fun x hx => by rw [hg, live_congr h1 h2]; exact hx, hkeep, saveString_present h,
-    fun rs hs => StrOK_weaken (a := [n]) (saveString_strOK hs h), fun ho => by rw [saveString_overflowed h]; exact ho⟩,
+    fun x hx => by rw [hg, live_congr h1 h2]; exact hx,
+    fun rs hs => ⟨StrOK_weaken (a := [n]) (saveString_strOK hs h), strBytes_of_present hkeep hs⟩,
+    fun ho => by rw [saveString_overflowed h]; exact ho⟩,
     hb, fun rs hs => saveString_strOK hs h, saveString_overflowed h⟩
 
 /-- the abstract value an argument of `setArg` stands for (the same function as `C04.argVal`) -/
@@ -398,15 +425,18 @@ def argV : Arg → Val
     set, and it is NOT `X` when the overflow flag was set by this copy -/
 def CopyRes (d d' : Doc) (l : Loc) (X : Val) : Prop :=
   ∃ v s, Post d d' l v s ∧ PartialCopy (d'.valOf v s) X ∧ (d'.overflowed = false → d'.valOf v s = X) ∧
-    (d.overflowed = false → d'.overflowed = true → d'.valOf v s ≠ X)
+    (d.overflowed = false → d'.overflowed = true → d'.valOf v s ≠ X) ∧
+    (d.overflowed = true → FlaggedCopy (d'.valOf v s) X)
 
 theorem CopyRes.ok {d d' : Doc} {l : Loc} {X : Val} {v : VData} {s : Forest} (h : Post d d' l v s)
-    (hv : d'.valOf v s = X) (hov : d'.overflowed = d.overflowed) : CopyRes d d' l X :=
-  ⟨v, s, h, hv ▸ PartialCopy.done _, fun _ => hv, fun h0 h1 => by rw [hov, h0] at h1; cases h1⟩
+    (hv : d'.valOf v s = X) (hov : d'.overflowed = d.overflowed) (hsc : isScalarVal X) : CopyRes d d' l X :=
+  ⟨v, s, h, hv ▸ PartialCopy.done _, fun _ => hv, (fun h0 h1 => by rw [hov, h0] at h1; cases h1),
+    fun _ => hv ▸ FlaggedCopy.scalar (hv ▸ hsc)⟩
 
 theorem CopyRes.fail {d d' : Doc} {l : Loc} {X : Val} (h : Post d d' l .null .nil) (ho : d'.overflowed = true)
-    (hX : X ≠ .null) : CopyRes d d' l X :=
-  ⟨.null, .nil, h, PartialCopy.null _, (fun hf => by rw [ho] at hf; cases hf), fun _ _ e => hX e.symm⟩
+    (hX : X ≠ .null) (hsc : isScalarVal X) : CopyRes d d' l X :=
+  ⟨.null, .nil, h, PartialCopy.null hsc, (fun hf => by rw [ho] at hf; cases hf), (fun _ _ e => hX e.symm),
+    fun _ => FlaggedCopy.null hsc⟩
 
 theorem scalar_set_self {d1 : Doc} {l : Loc} {v' : VData}
     (hne : ∀ e ∈ extOfV v', Loc.slot e ≠ l) : (d1.set l v').scalar v' = d1.scalar v' :=
@@ -414,12 +444,16 @@ theorem scalar_set_self {d1 : Doc} {l : Loc} {v' : VData}
 
 theorem setArg_res {d : Doc} {l : Loc} (P : Pre d l) (a : Arg) : CopyRes d (d.setArg l a).2 l (argV a) := by
   have hfr0 : Fr d d [] := Fr.refl P.pool []
+  have hsc : isScalarVal (argV a) := by
+    cases a
+    case f64 b => show isScalarVal (normF64 b); unfold normF64; split <;> exact True.intro
+    all_goals exact True.intro
   have plain : ∀ v', ¬ isColl v' → extOfV v' = [] → strOfV v' = [] → d.scalar v' = argV a →
       CopyRes d (d.set l v') l (argV a) := by
     intro v' hc he hs hval
     refine CopyRes.ok (v := v') (s := .nil)
       (post_set P hfr0 ((VOK_scalar hc _).2 rfl) (fun rs h => by rw [hs]; exact h) (by rw [he]; intro e h; cases h)) ?_
-      (set_overflowed _ _ _)
+      (set_overflowed _ _ _) hsc
     rw [Doc.valOf, mkVal_scalar hc, scalar_set_self (by rw [he]; intro e h; cases h)]; exact hval
   have ext : ∀ (p : Int) (k : Nat → VData), (∀ e, ¬ isColl (k e) ∧ extOfV (k e) = [e] ∧ strOfV (k e) = []) →
       (∀ e (d1 : Doc), d1.extOf e = p → d1.scalar (k e) = argV a) → argV a ≠ .null →
@@ -430,7 +464,7 @@ theorem setArg_res {d : Doc} {l : Loc} (P : Pre d l) (a : Arg) : CopyRes d (d.se
     cases m with
     | none =>
       obtain ⟨hg, ho, _⟩ := allocExt_none P.gok P.pool hal
-      exact CopyRes.fail (post_null P (Fr.of_grow hg (fun _ => ho) [])) ho hX
+      exact CopyRes.fail (post_null P (Fr.of_grow hg (fun _ => ho) [])) ho hX hsc
     | some e =>
       obtain ⟨hg, ho, hce, hnl, hlv⟩ := allocExt_some P.gok P.pool hal
       obtain ⟨hc, he, hs⟩ := hk e
@@ -441,7 +475,7 @@ theorem setArg_res {d : Doc} {l : Loc} (P : Pre d l) (a : Arg) : CopyRes d (d.se
         (post_set P (Fr.of_grow hg (fun h => by rw [ho]; exact h) []) ((VOK_scalar hc _).2 rfl)
           (fun rs h => by rw [hs]; exact StrOK_congr hg.strings hg.nextNode h)
           (by rw [he]; intro e' he'; simp only [List.mem_singleton] at he'; subst he'; exact ⟨⟨p, hce⟩, hlv, hnl⟩)) ?_
-        (by rw [set_overflowed, ho])
+        (by rw [set_overflowed, ho]) hsc
       show (d1.set l (k e)).valOf (k e) .nil = _
       rw [Doc.valOf, mkVal_scalar hc]
       refine hval e _ ?_
@@ -456,18 +490,18 @@ theorem setArg_res {d : Doc} {l : Loc} (P : Pre d l) (a : Arg) : CopyRes d (d.se
     cases m with
     | none =>
       obtain ⟨hg, ho, _⟩ := saveString_none P.pool hal
-      exact CopyRes.fail (post_null P (Fr.of_grow hg (fun _ => ho) [])) ho hX
+      exact CopyRes.fail (post_null P (Fr.of_grow hg (fun _ => ho) [])) ho hX hsc
     | some n =>
       obtain ⟨hf, hb, hst, hov1⟩ := saveString_fr P.pool P.str hal
       obtain ⟨hc, he, hs⟩ := hk n
       refine CopyRes.ok (v := k n) (s := .nil)
         (post_set P hf ((VOK_scalar hc _).2 rfl) (fun rs h => by rw [hs]; exact hst rs h)
-          (by rw [he]; intro e h; cases h)) ?_ (by rw [set_overflowed, hov1])
+          (by rw [he]; intro e h; cases h)) ?_ (by rw [set_overflowed, hov1]) hsc
       show (d1.set l (k n)).valOf (k n) .nil = _
       rw [Doc.valOf, mkVal_scalar hc]
       exact hval n _ (by rw [strBytes_set]; exact hb)
   cases a with
-  | null => exact CopyRes.ok (v := .null) (s := .nil) (post_null P hfr0) rfl rfl
+  | null => exact CopyRes.ok (v := .null) (s := .nil) (post_null P hfr0) rfl rfl trivial
   | bool b => exact plain (.bool b) (fun h => h) rfl rfl rfl
   | f32 b => exact plain (.f32 b) (fun h => h) rfl rfl rfl
   | strLinked s => exact plain (.linked s) (fun h => h) rfl rfl rfl
@@ -587,8 +621,7 @@ theorem post_snoc {d0 d d3 : Doc} {l : Loc} {b : Bool} {h t : Nat} {sl se : Fore
   obtain ⟨rs0, hrs0⟩ := P0.str
   have hsa : SAgree d d3 sl.ids := by
     intro j hj
-    refine scalar_congr (fun n hn' => hfr.bytes n ?_) (fun e he => (hextold j hj e he).2.1)
-    refine (P.att.str rs0 hrs0).present n ?_
+    refine scalar_congr (fun n hn' => hfr.bytes (P.att.str rs0 hrs0) ?_) (fun e he => (hextold j hj e he).2.1)
     refine List.mem_append_left _ (List.mem_append_right _ ?_)
     simp only [goneF, List.mem_flatMap]; exact ⟨j, hj, hn'⟩
   have hval : vals d3 noOv (sl.snocS key id se) =
@@ -693,7 +726,7 @@ theorem Att.frame {d0 d d' : Doc} {l : Loc} {v : VData} {s : Forest} {ex : List 
   have ag : Agree d d' s.ids := ⟨hf.null, hcs⟩
   have hscal : ∀ l' ∈ l :: s.ids.map Loc.slot, d'.scalar (d.get l') = d.scalar (d.get l') := by
     intro l' hl'
-    refine scalar_congr (fun n hn' => hf.bytes n (hpres n ?_)) (hextc l' hl')
+    refine scalar_congr (fun n hn' => hf.bytes (A.str rs0 hrs0) ?_) (hextc l' hl')
     refine List.mem_append_left _ ?_
     rcases List.mem_cons.1 hl' with e | m
     · rw [e, A.get] at hn'; exact List.mem_append_left _ hn'
@@ -738,8 +771,8 @@ theorem setNext_overflowed (d : Doc) (i n : Nat) : (d.setNext i n).overflowed = 
 
 theorem set_fr {d : Doc} (hp : PL.Inv d.g d.pl) (l : Loc) (v : VData) : Fr d (d.set l v) [l] := by
   refine ⟨set_g _ _ _, ?_, ?_, by rw [set_pl, set_g]; exact hp, fun x hx => by rw [set_pl, set_g]; exact hx,
-    fun m _ => strBytes_set d l v m, fun m hm => by rw [set_strings]; exact hm,
-    fun rs hs => StrOK_congr (set_strings _ _ _) (set_nextNode _ _ _) hs, fun ho => by rw [set_overflowed]; exact ho⟩
+    fun rs hs => ⟨StrOK_congr (set_strings _ _ _) (set_nextNode _ _ _) hs, fun m _ => strBytes_set d l v m⟩,
+    fun ho => by rw [set_overflowed]; exact ho⟩
   · intro hr
     cases l with
     | root => exact absurd (List.mem_singleton.2 rfl) hr
@@ -751,7 +784,7 @@ theorem fr_of_same {d d' : Doc} {ex : List Loc} (hp : PL.Inv d.g d.pl) (hg : d'.
     (hstr : d'.strings = d.strings) (hnn : d'.nextNode = d.nextNode) (hov : d'.overflowed = d.overflowed)
     (hroot : Loc.root ∉ ex → d'.root = d.root) (hcells : ∀ x, Loc.slot x ∉ ex → d'.cell x = d.cell x) : Fr d d' ex :=
   ⟨hg, hroot, fun x _ hn => hcells x hn, by rw [hpl, hg]; exact hp, fun x hx => by rw [hpl, hg]; exact hx,
-    fun m _ => strBytes_of_strings hstr m, fun m hm => by rw [hstr]; exact hm, fun rs hs => StrOK_congr hstr hnn hs,
+    fun rs hs => ⟨StrOK_congr hstr hnn hs, fun m _ => strBytes_of_strings hstr m⟩,
     fun ho => by rw [hov]; exact ho⟩
 
 theorem appendOne_fr {d : Doc} {l : Loc} {h t id : Nat} (hp : PL.Inv d.g d.pl) (hv : d.get l = .arr h t)
@@ -858,23 +891,57 @@ theorem Post.of_cleared {d0 d : Doc} {l : Loc} {v : VData} {s : Forest} (P0 : Pr
 
 theorem CopyRes.of_cleared {d0 d : Doc} {l : Loc} {X : Val} (P0 : Pre d0 l) (h : CopyRes (d0.set l .null) d l X) :
     CopyRes d0 d l X := by
-  obtain ⟨v, s, P, a, b, c⟩ := h
-  exact ⟨v, s, P.of_cleared P0, a, b, fun h0 => c (by rw [set_overflowed]; exact h0)⟩
+  obtain ⟨v, s, P, a, b, c, f⟩ := h
+  exact ⟨v, s, P.of_cleared P0, a, b, fun h0 => c (by rw [set_overflowed]; exact h0),
+    fun h0 => f (by rw [set_overflowed]; exact h0)⟩
+
+/-! ## `clearV` does not touch the overflow flag -/
+
+theorem derefString_overflowed (d : Doc) (n : Nat) : (d.derefString n).overflowed = d.overflowed := by
+  simp only [Doc.derefString]
+  split
+  · rfl
+  · split <;> rfl
+
+theorem walkFree_overflowed (free1 : Doc → Nat → Doc) (h1 : ∀ d id, (free1 d id).overflowed = d.overflowed) :
+    ∀ (w : Nat) (d : Doc) (id : Nat), (walkFree free1 w d id).overflowed = d.overflowed := by
+  intro w
+  induction w with
+  | zero => intro d id; rfl
+  | succ w ih =>
+    intro d id
+    simp only [walkFree]
+    split
+    · rfl
+    · rw [ih, h1]
+
+theorem clearVF_overflowed : ∀ (f : Nat) (d : Doc) (l : Loc), (Doc.clearVF f d l).overflowed = d.overflowed := by
+  intro f
+  induction f with
+  | zero => intro d l; exact set_overflowed _ _ _
+  | succ f ih =>
+    intro d l
+    have hw : ∀ (d : Doc) (w h : Nat),
+        (walkFree (fun d id => (Doc.clearVF f d (.slot id)).freeCell id) w d h).overflowed = d.overflowed :=
+      fun d w h => walkFree_overflowed (fun d id => (Doc.clearVF f d (.slot id)).freeCell id)
+        (fun d id => ih d (.slot id)) w d h
+    simp only [Doc.clearVF]
+    rw [set_overflowed]
+    cases d.get l <;> simp only [hw, derefString_overflowed] <;> rfl
+
+theorem clearV_overflowed (d : Doc) (l : Loc) : (d.clearV l).overflowed = d.overflowed := clearVF_overflowed _ d l
+
+theorem freeVariant_overflowed (d : Doc) (id : Nat) : (d.freeVariant id).overflowed = d.overflowed :=
+  clearV_overflowed d (.slot id)
 
 /-! ## One element of an array -/
 
-/-- `JsonArray::set` body: `add(element)` = allocate a slot, copy the element into it, link it -/
-def arrStep (f : Nat) (l : Loc) (src : Doc) (d : Doc) (e : Nat) : Doc :=
-  match d.allocVariant with
-  | (none, d) => d
-  | (some id, d) => (copyIntoF f d (.slot id) src (src.get (.slot e))).appendOne l id
-
-/-- `dst[key].set(value)` once the member slot `m` exists -/
+/-- `dst.set(src element)` once the slot `m` exists: the copy function passed to `copyElems` / `copyMembers` -/
 def memCopy (f : Nat) (src : Doc) (d : Doc) (m v : Nat) : Doc := copyIntoF f d (.slot m) src (src.get (.slot v))
 
 theorem copyIntoF_arr (f : Nat) (d : Doc) (l : Loc) (src : Doc) (h t : Nat) :
     copyIntoF (f+1) d l src (.arr h t) =
-      (src.chain h).foldl (arrStep f l src) ((d.clearV l).set l (.arr (d.clearV l).null (d.clearV l).null)) := rfl
+      copyElems l (memCopy f src) ((d.clearV l).set l (.arr (d.clearV l).null (d.clearV l).null)) (src.chain h) := rfl
 
 theorem copyIntoF_obj (f : Nat) (d : Doc) (l : Loc) (src : Doc) (h t : Nat) :
     copyIntoF (f+1) d l src (.obj h t) =
@@ -914,127 +981,225 @@ theorem Post.tail {d0 d : Doc} {l : Loc} {b : Bool} {h t : Nat} {sl : Forest} (P
   · exact absurd (live_lt_null P.fr.pool hx) (by rw [htn]; exact Nat.lt_irrefl _)
   · exact hxs (htf htn).1
 
+/-- the slot `id` just allocated, holding what a copy built in it (`Post d1 d2 (.slot id) ve se`), is appended to the array
+    being built at `l` -/
+theorem arr_append {d0 d d1 d2 : Doc} {l : Loc} {id h t : Nat} {xs : List Val} {sl se : Forest} {ve : VData}
+    (P0 : Pre d0 l) (P : Post d0 d l (.arr h t) sl) (hv : d.valOf (.arr h t) sl = .arr xs)
+    (hal : d.allocVariant = (some id, d1)) (P2 : Post d1 d2 (.slot id) ve se) :
+    ArrInv d0 (d2.appendOne l id) l (xs ++ [d2.valOf ve se]) ∧ (d2.appendOne l id).overflowed = d2.overflowed := by
+  have gokd : PL.GeoOK d.g := by rw [P.fr.g]; exact P0.gok
+  obtain ⟨rs0, hrs0⟩ := P0.str
+  have hsd := P.att.str rs0 hrs0
+  obtain ⟨hg, hov, hcid, hco, hnl, hlt, hlv⟩ := allocVariant_some gokd P.fr.pool hal
+  have hn1 : d1.null = d.null := by simp only [Doc.null, hg.g]
+  have hlid1 : PL.live d1.g d1.pl id := (hlv id).2 (Or.inr rfl)
+  have pre1 : Pre d1 (.slot id) :=
+    ⟨by rw [hg.g]; exact gokd, hg.pool, get_of_var hcid, fun i e => by cases e; exact ⟨hlid1, isVar_of_var hcid⟩,
+      ⟨_, StrOK_congr hg.strings hg.nextNode hsd⟩⟩
+  -- the frame from `d` to `d2`
+  have Fd2 : Fr d d2 [] := Fr.trans (Fr.of_grow hg (fun h => by rw [hov]; exact h) []) P2.fr
+    (fun l' hl' => Or.inr ⟨id, List.mem_singleton.1 hl', hnl⟩)
+  obtain ⟨Pd2, hvd2⟩ := P.frame P0 Fd2
+  obtain ⟨htf, htl, _, htne⟩ := Post.tail (b := false) P0 P
+  obtain ⟨htf2, _, _, _⟩ := Post.tail (b := false) P0 Pd2
+  have hn2 : d2.null = d.null := Fd2.null
+  have hll : ∀ i, l = .slot i → PL.live d.g d.pl i := fun i e => P.fr.live i (P0.slot i e).1
+  have hlid : Loc.slot id ≠ l := fun e => hnl (hll id e.symm)
+  have hidt : id ≠ t := by
+    intro e'
+    by_cases htn : t = d.null
+    · exact absurd hlt (by rw [e', htn]; exact Nat.lt_irrefl _)
+    · exact hnl (e' ▸ (htf htn).2.2)
+  obtain ⟨hn3, hstr3, hpl3, hg3, hget3, hco3, hct3, hroot3, hci3⟩ := appendOne_cells (id := id) Pd2.att.get htl
+  have F23 : Fr d2 (d2.appendOne l id) [l, .slot t] := appendOne_fr Pd2.fr.pool Pd2.att.get htl
+  have hov3 : (d2.appendOne l id).overflowed = d2.overflowed := appendOne_ov_eq Pd2.att.get
+  generalize d2.appendOne l id = d3 at *
+  -- what was built at `id` survives the linking
+  have hne_t : ∀ j, PL.live d2.g d2.pl j → (t ≠ d.null → j ≠ t) → j ≠ t := by
+    intro j hj hh e'
+    by_cases htn : t = d.null
+    · exact absurd (live_lt_null Pd2.fr.pool hj) (by rw [e', htn, hn2]; exact Nat.lt_irrefl _)
+    · exact hh htn e'
+  have hlid2 : PL.live d2.g d2.pl id := P2.fr.live id hlid1
+  have hidt : id ≠ t := hne_t id hlid2 (fun htn e' => hnl (e' ▸ (htf htn).2.2))
+  have hex2 : ∀ l' ∈ Loc.slot id :: se.ids.map Loc.slot, l' ∉ [l, Loc.slot t] := by
+    intro l' hl' hm
+    simp only [List.mem_cons, List.not_mem_nil, or_false] at hm
+    rcases List.mem_cons.1 hl' with e' | m
+    · subst e'
+      rcases hm with hm | hm
+      · exact hlid hm
+      · exact hidt (by injection hm)
+    · obtain ⟨j, hj, e'⟩ := List.mem_map.1 m
+      subst e'
+      rcases hm with hm | hm
+      · exact (P2.att.fresh j hj).1 (hg.live j (hll j hm.symm))
+      · refine hne_t j (P2.att.fresh j hj).2 (fun htn e' => ?_) (by injection hm)
+        exact (P2.att.fresh j hj).1 (hg.live j (e' ▸ (htf htn).2.2))
+  have hexe2 : ∀ l' ∈ Loc.slot id :: se.ids.map Loc.slot, ∀ e ∈ extOfV (d2.get l'), Loc.slot e ∉ [l, Loc.slot t] := by
+    intro l' hl' e he hm
+    obtain ⟨⟨p, hp⟩, hlv, _⟩ := P2.att.ext l' hl' e he
+    simp only [List.mem_cons, List.not_mem_nil, or_false] at hm
+    rcases hm with hm | hm
+    · have := Pd2.att.slot e hm.symm
+      rw [hp] at this; cases this
+    · have hm' : e = t := by injection hm
+      refine hne_t e hlv (fun htn e' => ?_) hm'
+      have := (htf2 (by rw [hn2]; exact htn)).2.1
+      rw [Doc.isVar, ← e', hp] at this; cases this
+  obtain ⟨A3, hval3⟩ := P2.att.frame pre1.str (fun i e => by cases e; exact hlid2) F23 hex2 hexe2
+  have hcid3 : d3.cell id = .var ve d.null := by rw [A3.slot id rfl, nextOf_of_var hcid]
+  have hsn := post_snoc (d0 := d0) (d := d) (d3 := d3) (b := false) (key := none) (id := id) (se := se) P0 P
+    (Fr.trans (Fd2.mono (fun _ h => by cases h)) F23 (fun l' hl' => Or.inl hl'))
+    (fun htn => by
+      rw [hct3 (by rw [hn2]; exact htn) (htf2 (by rw [hn2]; exact htn)).2.1,
+        get_of_cell (Fd2.cells t (htf htn).2.2 (by simp))]; rfl)
+    (by rw [hget3, hn2]; rfl)
+    (fun i e => by
+      rw [hci3 i e, hn2, nextOf_of_cell (Fd2.cells i (hll i e) (by simp)) hn2]; rfl)
+    ((Lk_cons _ _ _ _ _ _ _).2 ⟨rfl, by rw [hn3, hn2]; exact Nat.ne_of_lt hlt, isVar_of_var hcid3,
+      by rw [nextOf_of_var hcid3, Lk_nil, hn3, hn2], by rw [get_of_var hcid3]; exact A3.vok⟩)
+    (List.nodup_cons.2 ⟨fun m => (A3.fresh id m).1 hlid1, A3.nodup⟩)
+    (fun x hx => by
+      rcases List.mem_cons.1 hx with e' | m
+      · subst e'; exact ⟨hnl, F23.live _ hlid2⟩
+      · exact ⟨fun h0 => (A3.fresh x m).1 (hg.live x h0), (A3.fresh x m).2⟩)
+    A3.ext
+    (fun x hx e he h0 => A3.extfresh (.slot x) (List.mem_map_of_mem hx) e he (hg.live e h0))
+    (fun rs hs => by
+      have := A3.str rs (StrOK_congr hg.strings hg.nextNode hs)
+      have e1 : (Forest.keyL none ++ id :: se.ids).flatMap (fun j => strOfV (d3.get (.slot j))) =
+          strOfV ve ++ goneF d3 se := by
+        simp only [Forest.keyL, List.nil_append, List.flatMap_cons, A3.get, goneF]
+      rw [e1]; exact this)
+  obtain ⟨Pn, hvals⟩ := hsn
+  have hxs : (vals d noOv sl).map (·.2) = xs := by
+    have := hv
+    simp only [Doc.valOf, mkVal] at this
+    injection this
+  refine ⟨⟨_, id, sl.snocS none id se, Pn, ?_⟩, hov3⟩
+  show Val.arr ((vals d3 noOv (sl.snocS none id se)).map (·.2)) = _
+  rw [hvals, List.map_append, hxs, ← hval3]
+  simp only [List.map_cons, List.map_nil, Doc.valOf, A3.get]
+
+/-! ## Releasing the element whose copy failed -/
+
+theorem Att.isVar {d0 d : Doc} {l : Loc} {v : VData} {s : Forest} (A : Att d0 d l v s) : ∀ x ∈ s.ids, d.isVar x := by
+  intro x hx
+  have hne : s ≠ .nil := by intro e; subst e; cases hx
+  obtain ⟨b, h, hlk, _⟩ := VOK_coll_of_ne_nil A.vok hne
+  exact Lk_ids_isVar s hlk x hx
+
+/-- `JsonArray::add` on failure: the slot `id` allocated for the element, and everything the failed copy built in it
+    (`Post d1 d2 (.slot id) ve se`), is released by `freeVariant`: relative to the document `d` before the allocation,
+    nothing live changed - slots, extension slots and string references of the partial copy are all given back. -/
+theorem free_built {d d1 d2 : Doc} {id : Nat} {ve : VData} {se : Forest} (F1 : Fr d d1 [])
+    (hnl : ¬ PL.live d.g d.pl id) (hl1 : PL.live d1.g d1.pl id) (hs1 : ∃ rs, StrOK d1 rs)
+    (P2 : Post d1 d2 (.slot id) ve se) : Fr d (d2.freeVariant id) [] := by
+  have hgid : d2.get (.slot id) = ve := P2.att.get
+  have hvar : ∀ x ∈ id :: se.ids, d2.isVar x := by
+    intro x hx
+    rcases List.mem_cons.1 hx with e | m
+    · subst e; exact isVar_of_var (P2.att.slot x rfl)
+    · exact P2.att.isVar x m
+  have hmemH : ∀ j ∈ id :: se.ids, Loc.slot j ∈ Loc.slot id :: se.ids.map Loc.slot := by
+    intro j hj
+    rcases List.mem_cons.1 hj with e | m
+    · subst e; exact List.mem_cons_self
+    · exact List.mem_cons_of_mem _ (List.mem_map_of_mem m)
+  have H : ExtH d2 (id :: se.ids) := by
+    constructor
+    · intro j hj e he hm
+      obtain ⟨⟨p, hp⟩, _, _⟩ := P2.att.ext (.slot j) (hmemH j hj) e he
+      exact ext_ne_var hp (hvar e hm) rfl
+    · intro j hj j' hj' e he he'
+      have := (P2.att.ext (.slot j) (hmemH j hj) e he).2.2 (.slot j') (hmemH j' hj') he'
+      injection this with this
+      exact this.symm
+  have hidn : id ∉ se.ids := fun m => (P2.att.fresh id m).1 hl1
+  obtain ⟨hX, hXt⟩ := fpF_terr_nodup H se (fun j hj => List.mem_cons_of_mem _ hj) P2.att.nodup
+  obtain ⟨hnd, hterr⟩ := slot_piece (i := id) H hX hXt List.mem_cons_self (fun j hj => List.mem_cons_of_mem _ hj) hidn
+  -- the footprint is live in `d2` and not live in `d`
+  have hfp : ∀ x ∈ (extOfV (d2.get (.slot id)) ++ fpF d2 se) ++ [id], PL.live d2.g d2.pl x ∧ ¬ PL.live d.g d.pl x := by
+    intro x hx
+    rcases hterr x hx with m | ⟨j, hj, he⟩
+    · rcases List.mem_cons.1 m with e | m
+      · subst e; exact ⟨P2.fr.live x hl1, hnl⟩
+      · exact ⟨(P2.att.fresh x m).2, fun h0 => (P2.att.fresh x m).1 (F1.live x h0)⟩
+    · exact ⟨(P2.att.ext (.slot j) (hmemH j hj) x he).2.1,
+        fun h0 => P2.att.extfresh (.slot j) (hmemH j hj) x he (F1.live x h0)⟩
+  have hlen : se.ids.length < d2.fuel := by
+    have := length_le_of_nodup_lt P2.att.nodup (fun x hx => live_lt_null P2.fr.pool (P2.att.fresh x hx).2)
+    simp only [Doc.fuel, Doc.null] at *; omega
+  have heff : ∀ rs, StrOK d1 rs →
+      Eff d2 (d2.freeVariant id) ((extOfV (d2.get (.slot id)) ++ fpF d2 se) ++ [id]) rs := by
+    intro rs hs
+    have hs2 := P2.att.str rs hs
+    rw [List.append_assoc] at hs2
+    exact step_slot (PCs_all se) (f := d2.fuel) (d := d2) (i := id) (keep := rs) (by rw [hgid]; exact P2.att.vok)
+      (Nat.lt_of_le_of_lt se.depth_le hlen) (Nat.le_of_lt hlen) P2.fr.pool (fun x hx => (hfp x hx).1) hnd
+      (by rw [hgid]; exact hs2)
+  obtain ⟨rs1, hrs1⟩ := hs1
+  have he := heff rs1 hrs1
+  refine ⟨by rw [he.g, P2.fr.g, F1.g], fun _ => by rw [he.root, P2.fr.root (by simp), F1.root (by simp)], ?_, he.pool,
+    ?_, ?_, fun ho => by rw [freeVariant_overflowed]; exact P2.fr.ov (F1.ov ho)⟩
+  · intro x hx _
+    have hx1 := F1.live x hx
+    rw [he.cells x (fun m => (hfp x m).2 hx),
+      P2.fr.cells x hx1 (by simp only [List.mem_singleton, Loc.slot.injEq]; exact fun e => hnl (e ▸ hx)),
+      F1.cells x hx (by simp)]
+  · intro x hx
+    exact (he.live x).2 ⟨P2.fr.live x (F1.live x hx), fun m => (hfp x m).2 hx⟩
+  · intro rs hs
+    obtain ⟨a1, b1⟩ := F1.strs rs hs
+    obtain ⟨_, b2⟩ := P2.fr.strs rs a1
+    have he' := heff rs a1
+    exact ⟨he'.str, fun m hm => by rw [he'.bytes m hm, b2 m hm, b1 m hm]⟩
+
+/-- ONE ROUND of `JsonArray::set` (`add(element)`): either the round stops the loop - the slot could not be allocated, or
+    the copy into it left the document flagged and the slot was released - and the array built so far is unchanged and
+    the document flagged; or the element was copied COMPLETELY and appended, the document is not flagged, and the loop
+    goes on. -/
 theorem arr_step {src d0 d : Doc} {l : Loc} {f e : Nat} {xs : List Val} {X : Val}
     (P0 : Pre d0 l) (hI : ArrInv d0 d l xs)
-    (hrec : ∀ d1 id, Pre d1 (.slot id) →
-      CopyRes d1 (copyIntoF f d1 (.slot id) src (src.get (.slot e))) (.slot id) X) :
-    (d.overflowed = true → (arrStep f l src d e).overflowed = true) ∧
-    ((ArrInv d0 (arrStep f l src d e) l xs ∧ (arrStep f l src d e).overflowed = true) ∨
-     (∃ x, ArrInv d0 (arrStep f l src d e) l (xs ++ [x]) ∧ PartialCopy x X ∧
-       ((arrStep f l src d e).overflowed = false → x = X) ∧
-       (d.overflowed = false → (arrStep f l src d e).overflowed = true → x ≠ X))) := by
+    (hrec : ∀ d1 id, Pre d1 (.slot id) → CopyRes d1 (memCopy f src d1 id e) (.slot id) X) :
+    (∃ dS, (∀ rest, copyElems l (memCopy f src) d (e :: rest) = dS) ∧ ArrInv d0 dS l xs ∧ dS.overflowed = true) ∨
+    (∃ dC, (∀ rest, copyElems l (memCopy f src) d (e :: rest) = copyElems l (memCopy f src) dC rest) ∧
+      ArrInv d0 dC l (xs ++ [X]) ∧ dC.overflowed = false ∧ d.overflowed = false) := by
   obtain ⟨h, t, sl, P, hv⟩ := hI
   have gokd : PL.GeoOK d.g := by rw [P.fr.g]; exact P0.gok
   obtain ⟨rs0, hrs0⟩ := P0.str
   have hsd := P.att.str rs0 hrs0
-  simp only [arrStep]
   generalize hal : d.allocVariant = r
   obtain ⟨m, d1⟩ := r
   cases m with
   | none =>
     obtain ⟨hg, ho, _⟩ := allocVariant_none gokd P.fr.pool hal
     obtain ⟨P1, hv1⟩ := P.frame P0 (Fr.of_grow hg (fun _ => ho) [])
-    exact ⟨fun _ => ho, Or.inl ⟨⟨h, t, sl, P1, hv1.trans hv⟩, ho⟩⟩
+    exact Or.inl ⟨d1, fun rest => by simp only [copyElems, hal], ⟨h, t, sl, P1, hv1.trans hv⟩, ho⟩
   | some id =>
     obtain ⟨hg, hov, hcid, hco, hnl, hlt, hlv⟩ := allocVariant_some gokd P.fr.pool hal
-    have hn1 : d1.null = d.null := by simp only [Doc.null, hg.g]
     have hlid1 : PL.live d1.g d1.pl id := (hlv id).2 (Or.inr rfl)
+    have hs1 : ∃ rs, StrOK d1 rs := ⟨_, StrOK_congr hg.strings hg.nextNode hsd⟩
     have pre1 : Pre d1 (.slot id) :=
-      ⟨by rw [hg.g]; exact gokd, hg.pool, get_of_var hcid, fun i e => by cases e; exact ⟨hlid1, isVar_of_var hcid⟩,
-        ⟨_, StrOK_congr hg.strings hg.nextNode hsd⟩⟩
-    obtain ⟨ve, se, P2, hpc, hcomp, hinc⟩ := hrec d1 id pre1
-    simp only
-    generalize copyIntoF f d1 (.slot id) src (src.get (.slot e)) = d2 at *
-    -- the frame from `d` to `d2`
-    have Fd2 : Fr d d2 [] := Fr.trans (Fr.of_grow hg (fun h => by rw [hov]; exact h) []) P2.fr
-      (fun l' hl' => Or.inr ⟨id, List.mem_singleton.1 hl', hnl⟩)
-    obtain ⟨Pd2, hvd2⟩ := P.frame P0 Fd2
-    obtain ⟨htf, htl, _, htne⟩ := Post.tail (b := false) P0 P
-    obtain ⟨htf2, _, _, _⟩ := Post.tail (b := false) P0 Pd2
-    have hn2 : d2.null = d.null := Fd2.null
-    have hll : ∀ i, l = .slot i → PL.live d.g d.pl i := fun i e => P.fr.live i (P0.slot i e).1
-    have hlid : Loc.slot id ≠ l := fun e => hnl (hll id e.symm)
-    have hidt : id ≠ t := by
-      intro e'
-      by_cases htn : t = d.null
-      · exact absurd hlt (by rw [e', htn]; exact Nat.lt_irrefl _)
-      · exact hnl (e' ▸ (htf htn).2.2)
-    obtain ⟨hn3, hstr3, hpl3, hg3, hget3, hco3, hct3, hroot3, hci3⟩ := appendOne_cells (id := id) Pd2.att.get htl
-    have F23 : Fr d2 (d2.appendOne l id) [l, .slot t] := appendOne_fr Pd2.fr.pool Pd2.att.get htl
-    have hov3 : (d2.appendOne l id).overflowed = d2.overflowed := appendOne_ov_eq Pd2.att.get
-    generalize d2.appendOne l id = d3 at *
-    -- what was built at `id` survives the linking
-    have hne_t : ∀ j, PL.live d2.g d2.pl j → (t ≠ d.null → j ≠ t) → j ≠ t := by
-      intro j hj hh e'
-      by_cases htn : t = d.null
-      · exact absurd (live_lt_null Pd2.fr.pool hj) (by rw [e', htn, hn2]; exact Nat.lt_irrefl _)
-      · exact hh htn e'
-    have hlid2 : PL.live d2.g d2.pl id := P2.fr.live id hlid1
-    have hidt : id ≠ t := hne_t id hlid2 (fun htn e' => hnl (e' ▸ (htf htn).2.2))
-    have hex2 : ∀ l' ∈ Loc.slot id :: se.ids.map Loc.slot, l' ∉ [l, Loc.slot t] := by
-      intro l' hl' hm
-      simp only [List.mem_cons, List.not_mem_nil, or_false] at hm
-      rcases List.mem_cons.1 hl' with e' | m
-      · subst e'
-        rcases hm with hm | hm
-        · exact hlid hm
-        · exact hidt (by injection hm)
-      · obtain ⟨j, hj, e'⟩ := List.mem_map.1 m
-        subst e'
-        rcases hm with hm | hm
-        · exact (P2.att.fresh j hj).1 (hg.live j (hll j hm.symm))
-        · refine hne_t j (P2.att.fresh j hj).2 (fun htn e' => ?_) (by injection hm)
-          exact (P2.att.fresh j hj).1 (hg.live j (e' ▸ (htf htn).2.2))
-    have hexe2 : ∀ l' ∈ Loc.slot id :: se.ids.map Loc.slot, ∀ e ∈ extOfV (d2.get l'), Loc.slot e ∉ [l, Loc.slot t] := by
-      intro l' hl' e he hm
-      obtain ⟨⟨p, hp⟩, hlv, _⟩ := P2.att.ext l' hl' e he
-      simp only [List.mem_cons, List.not_mem_nil, or_false] at hm
-      rcases hm with hm | hm
-      · have := Pd2.att.slot e hm.symm
-        rw [hp] at this; cases this
-      · have hm' : e = t := by injection hm
-        refine hne_t e hlv (fun htn e' => ?_) hm'
-        have := (htf2 (by rw [hn2]; exact htn)).2.1
-        rw [Doc.isVar, ← e', hp] at this; cases this
-    obtain ⟨A3, hval3⟩ := P2.att.frame pre1.str (fun i e => by cases e; exact hlid2) F23 hex2 hexe2
-    have hcid3 : d3.cell id = .var ve d.null := by rw [A3.slot id rfl, nextOf_of_var hcid]
-    have hsn := post_snoc (d0 := d0) (d := d) (d3 := d3) (b := false) (key := none) (id := id) (se := se) P0 P
-      (Fr.trans (Fd2.mono (fun _ h => by cases h)) F23 (fun l' hl' => Or.inl hl'))
-      (fun htn => by
-        rw [hct3 (by rw [hn2]; exact htn) (htf2 (by rw [hn2]; exact htn)).2.1,
-          get_of_cell (Fd2.cells t (htf htn).2.2 (by simp))]; rfl)
-      (by rw [hget3, hn2]; rfl)
-      (fun i e => by
-        rw [hci3 i e, hn2, nextOf_of_cell (Fd2.cells i (hll i e) (by simp)) hn2]; rfl)
-      ((Lk_cons _ _ _ _ _ _ _).2 ⟨rfl, by rw [hn3, hn2]; exact Nat.ne_of_lt hlt, isVar_of_var hcid3,
-        by rw [nextOf_of_var hcid3, Lk_nil, hn3, hn2], by rw [get_of_var hcid3]; exact A3.vok⟩)
-      (List.nodup_cons.2 ⟨fun m => (A3.fresh id m).1 hlid1, A3.nodup⟩)
-      (fun x hx => by
-        rcases List.mem_cons.1 hx with e' | m
-        · subst e'; exact ⟨hnl, F23.live _ hlid2⟩
-        · exact ⟨fun h0 => (A3.fresh x m).1 (hg.live x h0), (A3.fresh x m).2⟩)
-      A3.ext
-      (fun x hx e he h0 => A3.extfresh (.slot x) (List.mem_map_of_mem hx) e he (hg.live e h0))
-      (fun rs hs => by
-        have := A3.str rs (StrOK_congr hg.strings hg.nextNode hs)
-        have e1 : (Forest.keyL none ++ id :: se.ids).flatMap (fun j => strOfV (d3.get (.slot j))) =
-            strOfV ve ++ goneF d3 se := by
-          simp only [Forest.keyL, List.nil_append, List.flatMap_cons, A3.get, goneF]
-        rw [e1]; exact this)
-    obtain ⟨Pn, hvals⟩ := hsn
-    have hxs : (vals d noOv sl).map (·.2) = xs := by
-      have := hv
-      simp only [Doc.valOf, mkVal] at this
-      injection this
-    refine ⟨fun ho => F23.ov (P2.fr.ov (by rw [hov]; exact ho)),
-      Or.inr ⟨d2.valOf ve se, ⟨_, id, sl.snocS none id se, Pn, ?_⟩, hpc, ?_, ?_⟩⟩
-    · show Val.arr ((vals d3 noOv (sl.snocS none id se)).map (·.2)) = _
-      rw [hvals, List.map_append, hxs, ← hval3]
-      simp only [List.map_cons, List.map_nil, Doc.valOf, A3.get]
-    · intro hf
-      exact hcomp (by rw [← hov3]; exact hf)
-    · intro h0 h3
-      exact hinc (by rw [hov]; exact h0) (by rw [← hov3]; exact h3)
+      ⟨by rw [hg.g]; exact gokd, hg.pool, get_of_var hcid, fun i e => by cases e; exact ⟨hlid1, isVar_of_var hcid⟩, hs1⟩
+    obtain ⟨ve, se, P2, _, hcomp, _, _⟩ := hrec d1 id pre1
+    have F1 : Fr d d1 [] := Fr.of_grow hg (fun h => by rw [hov]; exact h) []
+    cases h2 : (memCopy f src d1 id e).overflowed with
+    | true =>
+      have F3 := free_built F1 hnl hlid1 hs1 P2
+      obtain ⟨P3, hv3⟩ := P.frame P0 F3
+      refine Or.inl ⟨(memCopy f src d1 id e).freeVariant id, fun rest => ?_, ⟨h, t, sl, P3, hv3.trans hv⟩, ?_⟩
+      · simp only [copyElems, hal, h2, if_true]
+      · rw [freeVariant_overflowed]; exact h2
+    | false =>
+      obtain ⟨hA, hovA⟩ := arr_append P0 P hv hal P2
+      rw [hcomp h2] at hA
+      refine Or.inr ⟨(memCopy f src d1 id e).appendOne l id, fun rest => ?_, hA, by rw [hovA]; exact h2, ?_⟩
+      · simp only [copyElems, hal, h2, Bool.false_eq_true, if_false]
+      · cases h0 : d.overflowed with
+        | false => rfl
+        | true => rw [P2.fr.ov (by rw [hov]; exact h0)] at h2; cases h2
 
 /-! ## One member of an object -/
 
@@ -1155,18 +1320,6 @@ theorem ExtL.cons_noext {d : Doc} {H : List Loc} {l0 : Loc} (h : ExtL d H) (h0 :
     · subst e2; rw [h0] at he2; cases he2
     · exact c l2 m2 he2
 
-/-- `dst[key]` for one source member `(k, v)`, then `.set(value)` -/
-def memStep (f : Nat) (l : Loc) (src : Doc) (d : Doc) (k v : Nat) : Doc :=
-  match d.getOrAddMember l (src.keyOf k).1 (src.keyOf k).2 with
-  | (some m, d) => memCopy f src d m v
-  | (none, d) => d
-
-theorem copyMembers_cons (f : Nat) (l : Loc) (src d : Doc) (k v : Nat) (rest : List Nat) :
-    copyMembers l src (memCopy f src) d (k :: v :: rest) =
-      copyMembers l src (memCopy f src) (memStep f l src d k v) rest := by
-  simp only [copyMembers, memStep]
-  split <;> (rename_i heq; rw [heq])
-
 theorem keyOf_fst (src : Doc) (k : Nat) : (src.keyOf k).1 = keyOfV src (src.get (.slot k)) := by
   simp only [Doc.keyOf]
   cases src.get (.slot k) <;> rfl
@@ -1190,16 +1343,23 @@ theorem findKey_none {d : Doc} {l : Loc} {h t : Nat} {sl : Forest} {key : List B
   | none => rfl
   | some p => rw [hfi] at h1; cases h1
 
+/-- ONE ROUND of `JsonObject::set` (`dst[key].set(value)`): (1) the member could not be added - the loop stops, the object
+    built so far is unchanged, the document is flagged; or (2) the member was added with its key, but the copy of its
+    value left the document flagged - the loop stops with this member last, its value a partial copy; or (3) the member
+    was added and its value copied COMPLETELY, the document is not flagged, and the loop goes on. -/
 theorem obj_step {src d0 d : Doc} {l : Loc} {f ksrc vsrc : Nat} {ms : List (List Byte × Val)} {X : Val}
     (P0 : Pre d0 l) (hI : ObjInv d0 d l ms)
     (hfreshkey : keyOfV src (src.get (.slot ksrc)) ∉ ms.map (·.1))
-    (hrec : ∀ d1 id, Pre d1 (.slot id) →
-      CopyRes d1 (copyIntoF f d1 (.slot id) src (src.get (.slot vsrc))) (.slot id) X) :
-    (d.overflowed = true → (memStep f l src d ksrc vsrc).overflowed = true) ∧
-    ((ObjInv d0 (memStep f l src d ksrc vsrc) l ms ∧ (memStep f l src d ksrc vsrc).overflowed = true) ∨
-     (∃ x, ObjInv d0 (memStep f l src d ksrc vsrc) l (ms ++ [(keyOfV src (src.get (.slot ksrc)), x)]) ∧
-       PartialCopy x X ∧ ((memStep f l src d ksrc vsrc).overflowed = false → x = X) ∧
-       (d.overflowed = false → (memStep f l src d ksrc vsrc).overflowed = true → x ≠ X))) := by
+    (hrec : ∀ d1 id, Pre d1 (.slot id) → CopyRes d1 (memCopy f src d1 id vsrc) (.slot id) X) :
+    (∃ dS, (∀ rest, copyMembers l src (memCopy f src) d (ksrc :: vsrc :: rest) = dS) ∧ ObjInv d0 dS l ms ∧
+      dS.overflowed = true) ∨
+    (∃ dS x, (∀ rest, copyMembers l src (memCopy f src) d (ksrc :: vsrc :: rest) = dS) ∧
+      ObjInv d0 dS l (ms ++ [(keyOfV src (src.get (.slot ksrc)), x)]) ∧ dS.overflowed = true ∧ PartialCopy x X ∧
+      (d.overflowed = false → x ≠ X) ∧ (d.overflowed = true → FlaggedCopy x X)) ∨
+    (∃ dC, (∀ rest, copyMembers l src (memCopy f src) d (ksrc :: vsrc :: rest) =
+        copyMembers l src (memCopy f src) dC rest) ∧
+      ObjInv d0 dC l (ms ++ [(keyOfV src (src.get (.slot ksrc)), X)]) ∧ dC.overflowed = false ∧
+      d.overflowed = false) := by
   obtain ⟨h, t, sl, P, hv⟩ := hI
   have gokd : PL.GeoOK d.g := by rw [P.fr.g]; exact P0.gok
   obtain ⟨rs0, hrs0⟩ := P0.str
@@ -1214,15 +1374,23 @@ theorem obj_step {src d0 d : Doc} {l : Loc} {f ksrc vsrc : Nat} {ms : List (List
     simp only [Doc.fuel, Doc.null] at *; omega
   have hfk : d.findKey l (src.keyOf ksrc).1 = none :=
     findKey_none P.att.get hlk hfuel (by rw [hms, keyOf_fst]; exact hfreshkey)
-  simp only [memStep, getOrAddMember_obj P.att.get hfk]
-  generalize ham : d.addMember l (src.keyOf ksrc).1 (src.keyOf ksrc).2 = r
+  have hcm : ∀ rest, copyMembers l src (memCopy f src) d (ksrc :: vsrc :: rest) =
+      (match d.addMember l (src.keyOf ksrc).1 (src.keyOf ksrc).2 with
+       | (some m, d1) => if (memCopy f src d1 m vsrc).overflowed then memCopy f src d1 m vsrc
+                          else copyMembers l src (memCopy f src) (memCopy f src d1 m vsrc) rest
+       | (none, d1) => d1) := by
+    intro rest
+    simp only [copyMembers, getOrAddMember_obj P.att.get hfk]
+    first | rfl | (split <;> rename_i heq <;> simp only [heq])
+  generalize ham : d.addMember l (src.keyOf ksrc).1 (src.keyOf ksrc).2 = r at hcm
   obtain ⟨m, d'⟩ := r
   cases m with
   | none =>
     obtain ⟨hg, ho⟩ := addMember_none gokd P.fr.pool ham
     obtain ⟨P1, hv1⟩ := P.frame P0 (Fr.of_grow hg (fun _ => ho) [])
-    exact ⟨fun _ => ho, Or.inl ⟨⟨h, t, sl, P1, hv1.trans hv⟩, ho⟩⟩
+    exact Or.inl ⟨d', fun rest => hcm rest, ⟨h, t, sl, P1, hv1.trans hv⟩, ho⟩
   | some v =>
+    simp only at hcm
     obtain ⟨k, dK, kv, nk, hd', FK, hovK, hck, hcv, hkey, hkb, hkv, hnk, hnv, hlk', hlv', hstK⟩ :=
       addMember_some gokd P.fr.pool ⟨_, hsd⟩ ham
     subst hd'
@@ -1250,9 +1418,8 @@ theorem obj_step {src d0 d : Doc} {l : Loc} {f ksrc vsrc : Nat} {ms : List (List
     have pre1 : Pre d1 (.slot v) :=
       ⟨by rw [hg', FK.g]; exact gokd, FKp.pool, get_of_var hcv1,
         fun i e => by cases e; exact ⟨hlv1, isVar_of_var hcv1⟩, ⟨_, FKp.strok _ (FK.strok _ hsd)⟩⟩
-    obtain ⟨ve, se, P2, hpc, hcomp, hinc⟩ := hrec d1 v pre1
-    simp only [memCopy]
-    generalize copyIntoF f d1 (.slot v) src (src.get (.slot vsrc)) = d2 at *
+    obtain ⟨ve, se, P2, hpc, hcomp, hinc, hflag⟩ := hrec d1 v pre1
+    generalize memCopy f src d1 v vsrc = d2 at *
     have hn2 : d2.null = d.null := by rw [P2.fr.null, hn', hnK]
     have hlive1 : ∀ x, PL.live d.g d.pl x → PL.live d1.g d1.pl x := fun x hx => FKp.live x (FK.live x hx)
     have hc2 : ∀ x, PL.live d1.g d1.pl x → x ≠ v → d2.cell x = d1.cell x := fun x hx hxv =>
@@ -1325,14 +1492,23 @@ theorem obj_step {src d0 d : Doc} {l : Loc} {f ksrc vsrc : Nat} {ms : List (List
     have hkb2 : keyOfV d2 kv = (src.keyOf ksrc).1 := by
       rw [← hkb]
       refine keyOfV_of_scalar (scalar_congr (fun n hn' => ?_) (by rw [isKey_ext hkey]; intro e he; cases he))
-      rw [P2.fr.bytes n ((FKp.strok _ (hstK _ hsd)).present n (List.mem_append_left _ hn')),
-        strBytes_of_strings hstr']
-    refine ⟨fun ho => P2.fr.ov (by rw [hov', hovK]; exact ho),
-      Or.inr ⟨d2.valOf ve se, ⟨_, v, sl.snocS (some k) v se, Pn, ?_⟩, hpc, hcomp,
-        fun h0 => hinc (by rw [hov', hovK]; exact h0)⟩⟩
-    show Val.obj (vals d2 noOv (sl.snocS (some k) v se)) = _
-    rw [hvals, hms]
-    simp only [keyB, get_of_var hck2, hkb2, keyOf_fst, get_of_var hcv2, Doc.valOf]
+      rw [P2.fr.bytes (FKp.strok _ (hstK _ hsd)) (List.mem_append_left _ hn'), strBytes_of_strings hstr']
+    have hI2 : ObjInv d0 d2 l (ms ++ [(keyOfV src (src.get (.slot ksrc)), d2.valOf ve se)]) := by
+      refine ⟨_, v, sl.snocS (some k) v se, Pn, ?_⟩
+      show Val.obj (vals d2 noOv (sl.snocS (some k) v se)) = _
+      rw [hvals, hms]
+      simp only [keyB, get_of_var hck2, hkb2, keyOf_fst, get_of_var hcv2, Doc.valOf]
+    have hov1 : d1.overflowed = d.overflowed := by rw [hov', hovK]
+    cases h2 : d2.overflowed with
+    | true =>
+      exact Or.inr (Or.inl ⟨d2, d2.valOf ve se, fun rest => by rw [hcm rest, h2]; rfl, hI2, h2, hpc,
+        fun h0 => hinc (by rw [hov1]; exact h0) h2, fun h0 => hflag (by rw [hov1]; exact h0)⟩)
+    | false =>
+      rw [hcomp h2] at hI2
+      refine Or.inr (Or.inr ⟨d2, fun rest => by rw [hcm rest, h2]; rfl, hI2, h2, ?_⟩)
+      cases h0 : d.overflowed with
+      | false => rfl
+      | true => rw [P2.fr.ov (by rw [hov1]; exact h0)] at h2; cases h2
 
 /-! ## The induction on the layout of the source value -/
 
@@ -1341,17 +1517,29 @@ def CpV (src : Doc) (ss : Forest) : Prop :=
   ∀ (f : Nat) (d : Doc) (l : Loc) (sv : VData), VOK src sv ss → ss.depth < f → ss.ids.length ≤ src.fuel →
     NoDupKeys (src.valOf sv ss) → Pre d l → CopyRes d (copyIntoF f d l src sv) l (copyVal (src.valOf sv ss))
 
-/-- statement for (the rest of) a source array chain laid out as `r` -/
+/-- what a copy into an already flagged document leaves of a member list: nothing, or the first member only -/
+def FlaggedM (rest full : List (List Byte × Val)) : Prop :=
+  rest = [] ∨ ∃ k x v tl, full = (k, v) :: tl ∧ rest = [(k, x)] ∧ FlaggedCopy x v
+
+theorem FlaggedM.flagged {rest full : List (List Byte × Val)} (h : FlaggedM rest full) :
+    FlaggedCopy (.obj rest) (.obj full) := by
+  rcases h with e | ⟨k, x, v, tl, e1, e2, hf⟩
+  · subst e; exact FlaggedCopy.objNone _
+  · subst e1 e2; exact FlaggedCopy.objFirst hf
+
+/-- statement for (the rest of) a source array chain laid out as `r`: the loop appends complete copies of a prefix of the
+    elements; the whole chain unless the result is flagged; nothing at all if the document was flagged already -/
 def CpArr (src : Doc) (r : Forest) : Prop :=
   ∀ (f : Nat) (d0 d : Doc) (l : Loc) (start : Nat) (xs : List Val),
     Lk src false start r → r.depth ≤ f → r.ids.length ≤ src.fuel → NoDupKeysL ((vals src noOv r).map (·.2)) →
     Pre d0 l → ArrInv d0 d l xs →
-    ∃ rest, ArrInv d0 (r.top.foldl (arrStep f l src) d) l (xs ++ rest) ∧
-      PartialL rest (copyVals ((vals src noOv r).map (·.2))) ∧
-      ((r.top.foldl (arrStep f l src) d).overflowed = false → rest = copyVals ((vals src noOv r).map (·.2))) ∧
-      (d.overflowed = true → (r.top.foldl (arrStep f l src) d).overflowed = true) ∧
-      (d.overflowed = false → (r.top.foldl (arrStep f l src) d).overflowed = true →
-        rest ≠ copyVals ((vals src noOv r).map (·.2)))
+    ∃ rest, ArrInv d0 (copyElems l (memCopy f src) d r.top) l (xs ++ rest) ∧
+      rest <+: copyVals ((vals src noOv r).map (·.2)) ∧
+      ((copyElems l (memCopy f src) d r.top).overflowed = false → rest = copyVals ((vals src noOv r).map (·.2))) ∧
+      (d.overflowed = true → (copyElems l (memCopy f src) d r.top).overflowed = true) ∧
+      (d.overflowed = false → (copyElems l (memCopy f src) d r.top).overflowed = true →
+        rest ≠ copyVals ((vals src noOv r).map (·.2))) ∧
+      (d.overflowed = true → rest = [])
 
 /-- statement for (the rest of) a source object chain laid out as `r` -/
 def CpObj (src : Doc) (r : Forest) : Prop :=
@@ -1364,7 +1552,8 @@ def CpObj (src : Doc) (r : Forest) : Prop :=
       ((copyMembers l src (memCopy f src) d r.top).overflowed = false → rest = copyMems (vals src noOv r)) ∧
       (d.overflowed = true → (copyMembers l src (memCopy f src) d r.top).overflowed = true) ∧
       (d.overflowed = false → (copyMembers l src (memCopy f src) d r.top).overflowed = true →
-        rest ≠ copyMems (vals src noOv r))
+        rest ≠ copyMems (vals src noOv r)) ∧
+      (d.overflowed = true → FlaggedM rest (copyMems (vals src noOv r)))
 
 /-- statement for a source value laid out as `ss`, for ANY destination `d` whose cleared form `d.clearV l` is `dc` (the
     copy starts by clearing its target) -/
@@ -1390,7 +1579,7 @@ theorem CpVb_of_chain {src : Doc} {ss : Forest} (ha : CpArr src ss) (ho : CpObj 
     subst this
     show CopyRes _ (d.clearV l) l _
     rw [hcl]
-    exact CopyRes.ok (post_null Pc (Fr.refl Pc.pool [])) rfl rfl
+    exact CopyRes.ok (post_null Pc (Fr.refl Pc.pool [])) rfl rfl True.intro
   | bool b => exact scal (.bool b) (fun h => h) rfl rfl
   | i32 v => exact scal (.sint v) (fun h => h) rfl rfl
   | u32 v => exact scal (.uint v) (fun h => h) rfl rfl
@@ -1406,9 +1595,9 @@ theorem CpVb_of_chain {src : Doc} {ss : Forest} (ha : CpArr src ss) (ho : CpObj 
     rw [copyIntoF_arr, chain_eq hlk hfu, hcl]
     have Pi : Post dc (dc.set l (.arr dc.null dc.null)) l (.arr dc.null dc.null) .nil :=
       post_set Pc (Fr.refl Pc.pool []) ⟨rfl, rfl⟩ (fun rs h => h) (fun e he => by cases he)
-    obtain ⟨rest, ⟨h', t', sl, Pf, hvf⟩, hpl, hcomp, _, hinc⟩ :=
+    obtain ⟨rest, ⟨h', t', sl, Pf, hvf⟩, hpl, hcomp, _, hinc, hfl⟩ :=
       ha f' dc _ l h [] hlk (by omega) hfu hnd Pc ⟨_, _, .nil, Pi, rfl⟩
-    refine ⟨.arr h' t', sl, Pf, ?_, ?_, ?_⟩
+    refine ⟨.arr h' t', sl, Pf, ?_, ?_, ?_, ?_⟩
     · rw [hvf]; exact PartialCopy.arr hpl
     · intro hf; rw [hvf, hcomp hf]; rfl
     · intro h0 h1
@@ -1417,15 +1606,18 @@ theorem CpVb_of_chain {src : Doc} {ss : Forest} (ha : CpArr src ss) (ho : CpObj 
       have e' : rest = copyVals ((vals src noOv ss).map (·.2)) := by
         simp only [Doc.valOf, mkVal, copyVal] at e
         injection e
-      exact hinc (by rw [set_overflowed]; exact h0) h1 e' 
+      exact hinc (by rw [set_overflowed]; exact h0) h1 e'
+    · intro h0
+      rw [hvf, hfl (by rw [set_overflowed]; exact h0)]
+      exact FlaggedCopy.arr _
   | obj h t =>
     obtain ⟨hlk, _⟩ := (VOK_obj _ _ _ _).1 hv
     rw [copyIntoF_obj, chain_eq hlk hfu, hcl]
     have Pi : Post dc (dc.set l (.obj dc.null dc.null)) l (.obj dc.null dc.null) .nil :=
       post_set Pc (Fr.refl Pc.pool []) ⟨rfl, rfl⟩ (fun rs h => h) (fun e he => by cases he)
-    obtain ⟨rest, ⟨h', t', sl, Pf, hvf⟩, hpl, hcomp, _, hinc⟩ :=
+    obtain ⟨rest, ⟨h', t', sl, Pf, hvf⟩, hpl, hcomp, _, hinc, hfl⟩ :=
       ho f' dc _ l h [] hlk (by omega) hfu hnd.2 hnd.1 Pc ⟨_, _, .nil, Pi, rfl⟩
-    refine ⟨.obj h' t', sl, Pf, ?_, ?_, ?_⟩
+    refine ⟨.obj h' t', sl, Pf, ?_, ?_, ?_, ?_⟩
     · rw [hvf]; exact PartialCopy.obj hpl
     · intro hf; rw [hvf, hcomp hf]; rfl
     · intro h0 h1
@@ -1434,7 +1626,10 @@ theorem CpVb_of_chain {src : Doc} {ss : Forest} (ha : CpArr src ss) (ho : CpObj 
       have e' : rest = copyMems (vals src noOv ss) := by
         simp only [Doc.valOf, mkVal, copyVal] at e
         injection e
-      exact hinc (by rw [set_overflowed]; exact h0) h1 e' 
+      exact hinc (by rw [set_overflowed]; exact h0) h1 e'
+    · intro h0
+      rw [hvf]
+      exact (hfl (by rw [set_overflowed]; exact h0)).flagged
 
 theorem CpV_of_chain {src : Doc} {ss : Forest} (ha : CpArr src ss) (ho : CpObj src ss) : CpV src ss := by
   intro f d l sv hv hd hfu hnd P
@@ -1445,11 +1640,16 @@ theorem Cp_all (src : Doc) (F : Forest) : CpArr src F ∧ CpObj src F := by
   | nil =>
     constructor
     · intro f d0 d l start xs _ _ _ _ _ hI
-      exact ⟨[], by rw [List.append_nil]; exact hI, PartialL.nil, fun _ => rfl, fun h => h,
-        fun h0 h1 => by have h2 : d.overflowed = true := h1; rw [h0] at h2; cases h2⟩
+      refine ⟨[], by rw [List.append_nil]; exact hI, List.prefix_refl _, fun _ => rfl, fun h => h, ?_, fun _ => rfl⟩
+      intro h0 h1
+      have h2 : d.overflowed = true := h1
+      rw [h0] at h2; cases h2
     · intro f d0 d l start ms _ _ _ _ _ _ hI
-      exact ⟨[], by rw [List.append_nil]; exact hI, PartialM.nil, fun _ => rfl, fun h => h,
-        fun h0 h1 => by have h2 : d.overflowed = true := h1; rw [h0] at h2; cases h2⟩
+      refine ⟨[], by rw [List.append_nil]; exact hI, PartialM.pre (List.prefix_refl _), fun _ => rfl, fun h => h, ?_,
+        fun _ => Or.inl rfl⟩
+      intro h0 h1
+      have h2 : d.overflowed = true := h1
+      rw [h0] at h2; cases h2
   | cons key i s r ihs ihr =>
     have pvs : CpV src s := CpV_of_chain ihs.1 ihs.2
     constructor
@@ -1460,36 +1660,23 @@ theorem Cp_all (src : Doc) (F : Forest) : CpArr src F ∧ CpObj src F := by
       simp only [Forest.depth] at hd
       simp only [Forest.ids, Forest.keyL, List.nil_append, List.length_cons, List.length_append] at hfu
       simp only [vals, List.map_cons, NoDupKeysL] at hnd
-      simp only [Forest.top, Forest.keyL, List.nil_append, List.foldl_cons, vals, List.map_cons, copyVals, noOv,
-        Option.getD_none]
-      obtain ⟨hmono, hcase⟩ := arr_step (src := src) (f := f) (e := i) P0 hI
-        (fun d1 id pre => pvs f d1 (.slot id) (src.get (.slot i)) h5 (by omega) (by omega) hnd.1 pre)
-      generalize arrStep f l src d i = d1 at *
-      rcases hcase with ⟨hI1, ho1⟩ | ⟨x, hI1, hpc, hcomp, hinc⟩
-      · obtain ⟨rest, hIf, hpl, _, hmono', _⟩ :=
-          ihr.1 f d0 d1 l (src.nextOf i) xs h4 (by omega) (by omega) hnd.2 P0 hI1
-        refine ⟨rest, hIf, PartialL.skip _ hpl, ?_, fun h => hmono' (hmono h), ?_⟩
-        · intro hf; rw [hmono' ho1] at hf; cases hf
-        · intro _ _ e
-          have := hpl.length_le
-          rw [e] at this
-          simp only [List.length_cons] at this
-          omega
-      · obtain ⟨rest, hIf, hpl, hcomp', hmono', hinc'⟩ :=
-          ihr.1 f d0 d1 l (src.nextOf i) (xs ++ [x]) h4 (by omega) (by omega) hnd.2 P0 hI1
-        refine ⟨x :: rest, by rw [List.append_assoc] at hIf; exact hIf, PartialL.cons hpc hpl, ?_,
-          fun h => hmono' (hmono h), ?_⟩
-        · intro hf
-          have h1f : d1.overflowed = false := by
-            cases h1 : d1.overflowed with
-            | false => rfl
-            | true => rw [hmono' h1] at hf; cases hf
-          rw [hcomp h1f, hcomp' hf]; rfl
-        · intro h0 hfin e
-          injection e with e1 e2
-          cases h1 : d1.overflowed with
-          | false => exact hinc' h1 hfin e2
-          | true => exact hinc h0 h1 e1
+      simp only [Forest.top, Forest.keyL, List.nil_append, vals, List.map_cons, copyVals, noOv, Option.getD_none]
+      rcases arr_step (src := src) (f := f) (e := i) P0 hI
+        (fun d1 id pre => pvs f d1 (.slot id) (src.get (.slot i)) h5 (by omega) (by omega) hnd.1 pre) with
+        ⟨dS, heq, hI1, ho1⟩ | ⟨dC, heq, hI1, hoC, hod⟩
+      · rw [heq]
+        refine ⟨[], by rw [List.append_nil]; exact hI1, List.nil_prefix, ?_, fun _ => ho1, ?_, fun _ => rfl⟩
+        · intro hf; rw [ho1] at hf; cases hf
+        · intro _ _ e; cases e
+      · rw [heq]
+        obtain ⟨rest, hIf, hpl, hcomp', _, hinc', _⟩ :=
+          ihr.1 f d0 dC l (src.nextOf i) _ h4 (by omega) (by omega) hnd.2 P0 hI1
+        refine ⟨_ :: rest, by rw [List.append_assoc] at hIf; exact hIf, List.cons_prefix_cons.2 ⟨rfl, hpl⟩, ?_,
+          (fun h => by rw [hod] at h; cases h), ?_, (fun h => by rw [hod] at h; cases h)⟩
+        · intro hf; rw [hcomp' hf]
+        · intro _ hfin e
+          injection e with _ e2
+          exact hinc' hoC hfin e2
     · intro f d0 d l start ms hl hd hfu hnd hkeys P0 hI
       rw [Lk_cons] at hl
       obtain ⟨h1, _, _, h4, h5⟩ := hl
@@ -1502,41 +1689,34 @@ theorem Cp_all (src : Doc) (F : Forest) : CpArr src F ∧ CpObj src F := by
       simp only [vals, List.map_cons, keyB, noOv, Option.getD_none] at hkeys
       simp only [Forest.top, Forest.keyL, List.cons_append, List.nil_append, vals, copyMems, noOv, Option.getD_none,
         keyB]
-      rw [copyMembers_cons]
       have hfreshkey : keyOfV src (src.get (.slot k)) ∉ ms.map (·.1) := by
         intro m
         exact (List.nodup_append.1 hkeys).2.2 _ m _ List.mem_cons_self rfl
-      obtain ⟨hmono, hcase⟩ := obj_step (src := src) (f := f) (ksrc := k) (vsrc := i) P0 hI hfreshkey
-        (fun d1 id pre => pvs f d1 (.slot id) (src.get (.slot i)) h5 (by omega) (by omega) hnd.1 pre)
-      generalize memStep f l src d k i = d1 at *
-      rcases hcase with ⟨hI1, ho1⟩ | ⟨x, hI1, hpc, hcomp, hinc⟩
-      · obtain ⟨rest, hIf, hpl, _, hmono', _⟩ :=
-          ihr.2 f d0 d1 l (src.nextOf i) ms h4 (by omega) (by omega) hnd.2
-            (hkeys.sublist (List.Sublist.append_left (List.sublist_cons_self _ _) _)) P0 hI1
-        refine ⟨rest, hIf, PartialM.skip _ hpl, ?_, fun h => hmono' (hmono h), ?_⟩
-        · intro hf; rw [hmono' ho1] at hf; cases hf
-        · intro _ _ e
-          have := hpl.length_le
-          rw [e] at this
-          simp only [List.length_cons] at this
-          omega
-      · obtain ⟨rest, hIf, hpl, hcomp', hmono', hinc'⟩ :=
-          ihr.2 f d0 d1 l (src.nextOf i) (ms ++ [(keyOfV src (src.get (.slot k)), x)]) h4 (by omega) (by omega) hnd.2
-            (by simpa using hkeys) P0 hI1
-        refine ⟨(keyOfV src (src.get (.slot k)), x) :: rest, by rw [List.append_assoc] at hIf; exact hIf,
-          PartialM.cons hpc hpl, ?_, fun h => hmono' (hmono h), ?_⟩
-        · intro hf
-          have h1f : d1.overflowed = false := by
-            cases h1 : d1.overflowed with
-            | false => rfl
-            | true => rw [hmono' h1] at hf; cases hf
-          rw [hcomp h1f, hcomp' hf]; rfl
-        · intro h0 hfin e
-          injection e with e1 e2
+      rcases obj_step (src := src) (f := f) (ksrc := k) (vsrc := i) P0 hI hfreshkey
+        (fun d1 id pre => pvs f d1 (.slot id) (src.get (.slot i)) h5 (by omega) (by omega) hnd.1 pre) with
+        ⟨dS, heq, hI1, ho1⟩ | ⟨dS, x, heq, hI1, ho1, hpc, hne, hfl⟩ | ⟨dC, heq, hI1, hoC, hod⟩
+      · rw [heq]
+        refine ⟨[], by rw [List.append_nil]; exact hI1, PartialM.pre List.nil_prefix, ?_, fun _ => ho1, ?_,
+          fun _ => Or.inl rfl⟩
+        · intro hf; rw [ho1] at hf; cases hf
+        · intro _ _ e; cases e
+      · rw [heq]
+        refine ⟨[(keyOfV src (src.get (.slot k)), x)], hI1, PartialM.last (p := []) hpc, ?_, fun _ => ho1, ?_,
+          fun h0 => Or.inr ⟨_, x, _, _, rfl, rfl, hfl h0⟩⟩
+        · intro hf; rw [ho1] at hf; cases hf
+        · intro h0 _ e
+          injection e with e1 _
           injection e1 with _ e1
-          cases h1 : d1.overflowed with
-          | false => exact hinc' h1 hfin e2
-          | true => exact hinc h0 h1 e1
+          exact hne h0 e1
+      · rw [heq]
+        obtain ⟨rest, hIf, hpl, hcomp', _, hinc', _⟩ :=
+          ihr.2 f d0 dC l (src.nextOf i) _ h4 (by omega) (by omega) hnd.2 (by simpa using hkeys) P0 hI1
+        refine ⟨_ :: rest, by rw [List.append_assoc] at hIf; exact hIf, hpl.cons_head _, ?_,
+          (fun h => by rw [hod] at h; cases h), ?_, (fun h => by rw [hod] at h; cases h)⟩
+        · intro hf; rw [hcomp' hf]
+        · intro _ hfin e
+          injection e with _ e2
+          exact hinc' hoC hfin e2
 
 /-- LOCAL SPECIFICATION of the deep copy: for a source value `sv` of `src` laid out as `ss` (no object with a duplicate
     key) and a cleared place `l` of `d`, `copyIntoF f d l src sv` (with enough fuel) satisfies the frame, builds at `l`
@@ -1620,7 +1800,7 @@ theorem post_assemble {d d' : Doc} {F : Forest} {l : Loc} {v : VData} {s : Fores
     (fun j hj hjl _ => by
       have hh : Loc.slot j ∈ holders F := mem_holders.2 (Or.inr ⟨j, hj, rfl⟩)
       refine ⟨P.fr.cells j (w.live j hj) (fun m => hjl (List.mem_singleton.1 m)), ?_⟩
-      refine scalar_congr (fun n hn' => P.fr.bytes n (hs.present n ?_)) (hextc _ hh)
+      refine scalar_congr (fun n hn' => P.fr.bytes hs ?_) (hextc _ hh)
       simp only [Doc.strRefs, List.mem_flatMap]; exact ⟨_, hh, hn'⟩)
     P.att.nodup (fun x hx hxF => absurd (w.live x hxF) (P.att.fresh x hx).1)
     (fun x hx => hn ▸ live_lt_null P.fr.pool (P.att.fresh x hx).2) P.fr.pool (fun x hx => (P.att.fresh x hx).2)
@@ -1733,7 +1913,7 @@ theorem fr_toVal {d d' : Doc} {F : Forest} {l l' : Loc} (w : WFG d F) (hs : StrO
   have ag : Agree d d' (layoutAt F l').ids := ⟨hf.null, fun x hx => hf.cells x (w.live x (hsF x hx)) (hxl x hx)⟩
   have hsc : ∀ l0 ∈ holders F, d'.scalar (d.get l0) = d.scalar (d.get l0) := by
     intro l0 h0
-    refine scalar_congr (fun n hn' => hf.bytes n (hs.present n ?_)) (fun e he => ?_)
+    refine scalar_congr (fun n hn' => hf.bytes hs ?_) (fun e he => ?_)
     · simp only [Doc.strRefs, List.mem_flatMap]; exact ⟨l0, h0, hn'⟩
     · obtain ⟨⟨p, hp⟩, hlv, _⟩ := w.ext l0 h0 e he
       refine hf.cells e hlv (fun m => ?_)
@@ -1762,17 +1942,19 @@ theorem copyInto_doc {d src : Doc} {F ss : Forest} {l : Loc} {sv : VData}
       (copyInto d l src sv).toVal ((copyInto d l src sv).get l) = copyVal (src.toVal sv)) ∧
     (d.overflowed = false → (copyInto d l src sv).overflowed = true →
       (copyInto d l src sv).toVal ((copyInto d l src sv).get l) ≠ copyVal (src.toVal sv)) ∧
+    (d.overflowed = true →
+      FlaggedCopy ((copyInto d l src sv).toVal ((copyInto d l src sv).get l)) (copyVal (src.toVal sv))) ∧
     (∀ x ∈ ((copyInto d l src sv).lay ((copyInto d l src sv).get l)).ids, ¬ PL.live d.g d.pl x) ∧
     Fr d (copyInto d l src sv) [l] := by
   have hsv : src.toVal sv = src.valOf sv ss := toVal_eq hv hfu
   rw [hsv] at hnd ⊢
-  obtain ⟨v, s, P, hpc, hcomp, hinc⟩ := copyIntoF_local (f := src.fuel) hv (Nat.lt_of_le_of_lt ss.depth_le hfu)
+  obtain ⟨v, s, P, hpc, hcomp, hinc, hflg⟩ := copyIntoF_local (f := src.fuel) hv (Nat.lt_of_le_of_lt ss.depth_le hfu)
     (Nat.le_of_lt hfu) hnd (pre_of_wfg w hs gok hl hnull)
   simp only [copyInto]
   generalize copyIntoF src.fuel d l src sv = d' at *
   rw [P.att.get, lay_eq P.att.vok P.ids_lt_fuel, toVal_eq P.att.vok P.ids_lt_fuel]
   obtain ⟨a, b, c⟩ := post_assemble w hs hl hnull P
-  exact ⟨a, b, c, hpc, hcomp, hinc, fun x hx => (P.att.fresh x hx).1, P.fr⟩
+  exact ⟨a, b, c, hpc, hcomp, hinc, hflg, fun x hx => (P.att.fresh x hx).1, P.fr⟩
 
 /-! ## A decidable equality test for abstract values (used to evaluate examples in the kernel) -/
 
@@ -1916,40 +2098,6 @@ theorem isLoc_replaceAt_old {F : Forest} {l l' : Loc} (s' : Forest) (hnd : F.ids
 
 /-! ## Copy onto a location that still holds a value: the copy clears it first -/
 
-theorem derefString_overflowed (d : Doc) (n : Nat) : (d.derefString n).overflowed = d.overflowed := by
-  simp only [Doc.derefString]
-  split
-  · rfl
-  · split <;> rfl
-
-theorem walkFree_overflowed (free1 : Doc → Nat → Doc) (h1 : ∀ d id, (free1 d id).overflowed = d.overflowed) :
-    ∀ (w : Nat) (d : Doc) (id : Nat), (walkFree free1 w d id).overflowed = d.overflowed := by
-  intro w
-  induction w with
-  | zero => intro d id; rfl
-  | succ w ih =>
-    intro d id
-    simp only [walkFree]
-    split
-    · rfl
-    · rw [ih, h1]
-
-theorem clearVF_overflowed : ∀ (f : Nat) (d : Doc) (l : Loc), (Doc.clearVF f d l).overflowed = d.overflowed := by
-  intro f
-  induction f with
-  | zero => intro d l; exact set_overflowed _ _ _
-  | succ f ih =>
-    intro d l
-    have hw : ∀ (d : Doc) (w h : Nat),
-        (walkFree (fun d id => (Doc.clearVF f d (.slot id)).freeCell id) w d h).overflowed = d.overflowed :=
-      fun d w h => walkFree_overflowed (fun d id => (Doc.clearVF f d (.slot id)).freeCell id)
-        (fun d id => ih d (.slot id)) w d h
-    simp only [Doc.clearVF]
-    rw [set_overflowed]
-    cases d.get l <;> simp only [hw, derefString_overflowed] <;> rfl
-
-theorem clearV_overflowed (d : Doc) (l : Loc) : (d.clearV l).overflowed = d.overflowed := clearVF_overflowed _ d l
-
 theorem Forest.replaceSub_replaceSub (F : Forest) (i : Nat) (s1 s2 : Forest) :
     (F.replaceSub i s1).replaceSub i s2 = F.replaceSub i s2 := by
   induction F with
@@ -2076,7 +2224,7 @@ theorem post_keep {d d' : Doc} {F : Forest} {l : Loc} {v : VData} {s : Forest}
   · rcases mem_holders.1 h0 with e | ⟨x, hx, e⟩
     · subst e; exact P.fr.root (fun m => hne (List.mem_singleton.1 m))
     · subst e; exact get_of_cell (hc x hx hne)
-  · refine scalar_congr (fun n hn' => P.fr.bytes n (hs.present n ?_)) (fun e he => ?_)
+  · refine scalar_congr (fun n hn' => P.fr.bytes hs ?_) (fun e he => ?_)
     · simp only [Doc.strRefs, List.mem_flatMap]; exact ⟨l0, h0, hn'⟩
     · obtain ⟨⟨p, hp⟩, hlv, _⟩ := w.ext l0 h0 e he
       refine P.fr.cells e hlv (fun m => ?_)
@@ -2098,6 +2246,8 @@ theorem copyInto_doc_gen {d src : Doc} {F ss : Forest} {l : Loc} {sv : VData}
     (d.overflowed = true → (copyInto d l src sv).overflowed = true) ∧
     (d.overflowed = false → (copyInto d l src sv).overflowed = true →
       (copyInto d l src sv).toVal ((copyInto d l src sv).get l) ≠ copyVal (src.toVal sv)) ∧
+    (d.overflowed = true →
+      FlaggedCopy ((copyInto d l src sv).toVal ((copyInto d l src sv).get l)) (copyVal (src.toVal sv))) ∧
     (∀ x ∈ ((copyInto d l src sv).lay ((copyInto d l src sv).get l)).ids, x ∈ F.ids → x ∈ (layoutAt F l).ids) ∧
     (∀ x ∈ F.ids, x ∉ (layoutAt F l).ids → PL.live (copyInto d l src sv).g (copyInto d l src sv).pl x) ∧
     Keep d (copyInto d l src sv) F l := by
@@ -2109,7 +2259,7 @@ theorem copyInto_doc_gen {d src : Doc} {F ss : Forest} {l : Loc} {sv : VData}
   have hg0 : (d.clearV l).g = d.g := clearV_g w hs hl
   have hl0 : isLoc (replaceAt F l .nil) l := isLoc_replaceAt_self .nil hl
   have P0 : Pre (d.clearV l) l := pre_of_wfg w0 s0 (by rw [hg0]; exact gok) hl0 hnull0
-  obtain ⟨v, s, P, hpc, hcomp, hinc⟩ := copyIntoF_local_gen (f := src.fuel) (d := d) hv
+  obtain ⟨v, s, P, hpc, hcomp, hinc, hflg⟩ := copyIntoF_local_gen (f := src.fuel) (d := d) hv
     (Nat.lt_of_le_of_lt ss.depth_le hfu) (Nat.le_of_lt hfu) hnd P0
   simp only [copyInto]
   generalize copyIntoF src.fuel d l src sv = d' at *
@@ -2138,7 +2288,8 @@ theorem copyInto_doc_gen {d src : Doc} {F ss : Forest} {l : Loc} {sv : VData}
   have hlen := P.ids_lt_fuel
   rw [P.att.get, lay_eq P.att.vok hlen, toVal_eq P.att.vok hlen]
   refine ⟨a, b, by rw [P.fr.g, hg0], ?_, hpc, hcomp, fun ho => P.fr.ov (by rw [← hdc, clearV_overflowed]; exact ho),
-    fun h0 => hinc (by rw [← hdc, clearV_overflowed]; exact h0), ?_,
+    fun h0 => hinc (by rw [← hdc, clearV_overflowed]; exact h0),
+    fun h0 => hflg (by rw [← hdc, clearV_overflowed]; exact h0), ?_,
     fun x hx hxs => P.fr.live x (hlive0 x hx hxs), keep⟩
   · -- the abstract document
     rw [abs_eq a]
